@@ -283,6 +283,10 @@ where
         for i in 0..num_of_nodes {
             for j in 0..num_of_nodes {
                 if let Some(dist) = m_dist {
+                    // K::max() means "no path": never relax through it
+                    if !(dist[i][k] < K::max() && dist[k][j] < K::max()) {
+                        continue;
+                    }
                     let (result, overflow) = dist[i][k].overflowing_add(dist[k][j]);
                     if !overflow && dist[i][j] > result {
                         dist[i][j] = result;
